@@ -114,7 +114,8 @@ def run(ctx: common.Ctx):
   nval = ctx.n(60, 600)
   for vi in range(nval):
     b, _ = dinoutil.random_boundaries(rng)
-    mode = ['ok', 'first', 'last', 'swap', 'dup', 'neg', 'tiny-first', 'tiny-last', 'beyond'][vi % 9]
+    mode = ['ok', 'first', 'last', 'swap', 'dup', 'neg', 'tiny-first', 'tiny-last', 'beyond', 'nan-interior', 'inf-interior',
+            'nan-end'][vi % 12]
     b = b.copy()
     if mode == 'first':
       b[0] = rng.choice([1e-3, -1e-3, 0.01])
@@ -132,6 +133,14 @@ def run(ctx: common.Ctx):
       b[-1] = 1 + rng.choice([5e-6, -5e-6, 2e-5])
     elif mode == 'beyond' and len(b) >= 3:
       b[-2] = 1.0 + 1e-7
+    # non-finite levels are not "strictly increasing from 0 to 1" (every comparison with NaN is false): a NaN interior
+    # level passes a vectorised `any(diff <= 0)` test although it fails `all(diff > 0)`
+    elif mode == 'nan-interior' and len(b) >= 3:
+      b[int(rng.integers(1, len(b) - 1))] = np.nan
+    elif mode == 'inf-interior' and len(b) >= 3:
+      b[int(rng.integers(1, len(b) - 1))] = rng.choice([np.inf, -np.inf])
+    elif mode == 'nan-end':
+      b[int(rng.choice([0, -1]))] = np.nan
     try:
       sc.SigmaCoordinates(b)
       accepted = True
